@@ -34,6 +34,7 @@ type HarnessCfg struct {
 	RealBase58    bool           // execute base58.Encode/Decode for real (Int mode) instead of the abstract bijection
 	SymbolicMake  bool            // make([]byte, n) with symbolic n yields a symbolic-length buffer
 	UFCalls       map[string]bool // functions (by full name) replaced by uninterpreted functions of their arguments
+	TimeBudgetS   int             // wall-clock budget for one harness; exploration stops (reported) when exceeded
 	AllocLimit    int             // >0: allocations sized by a symbolic count must not exceed it (obligation)
 	InjectiveUF   bool            // hash UFs are collision free (pairwise lemmas per path)
 	BatchPanics   bool            // implicit panic checks of a path are discharged together
